@@ -230,6 +230,13 @@ class Splicer:
     def invoke(self, bb, cal, fop, arg_ops, dest, nxt, span):
         """make block bb call `cal` with arg_ops, store the result in dest and continue at nxt"""
         kind, x = cal
+        if kind == "fn" and x.get("ctor"):
+            # `.map(Some)` / `.map(Wrapper)`: a constructor used as a function builds the aggregate
+            c = x["ctor"]
+            self.assign(bb, dest, {"k": "aggregate", "agg": {"k": "adt", "adt": C.norm(c["adt"]), "vi": c["vi"], "variant": c["variant"],
+                                                              "fields": c["fields"]}, "ops": arg_ops}, span)
+            self.goto(bb, nxt, span)
+            return
         if kind == "fn":
             self.blocks[bb]["term"] = {"k": "call", "callee": x, "args": arg_ops, "arg_tys": [UNKNOWN_TY] * len(arg_ops), "dest": dest,
                                        "dest_ty": "_", "t": nxt, "unwind": None, "span": span, "fn_span": span, "fty": "_"}
@@ -294,7 +301,11 @@ class Splicer:
         call_stmt_free = dict(blk)      # the original block keeps its statements; only the terminator is replaced
 
         def ret_ty(c):
-            return c[1].locals[0] if c[0] == "closure" else UNKNOWN_TY
+            if c[0] == "closure":
+                return c[1].locals[0]
+            # `map::<U, F>` / `map_err::<F, O>` / `ok_or_else::<E, F>` / `then::<T, F>`: the produced type is the last but one type argument
+            ta = t["callee"].get("targs") or []
+            return ta[-2] if len(ta) >= 2 else UNKNOWN_TY
 
         def arm_wrap(bb, c, cop, xs, adt, vi):
             """tmp = c(xs); dest = adt::vi(tmp)"""
